@@ -47,6 +47,13 @@ C = dict(
 )
 
 def run(tier, replay=None):
+    if not replay:
+        from lib import vlib
+        # negative control: a flush that carries on after a failed write must leave the contract
+        r = vlib.run_tlc("Checkpoint_MC", "Checkpoint_MC_2_continue.cfg", workers=2, timeout=300)
+        if "C05" not in r.violated:
+            raise vlib.Inconclusive("Checkpoint_MC_2_continue.cfg no longer violates C05: the model's failure path is vacuous")
+        vlib.log("[tlc] Checkpoint_MC/Checkpoint_MC_2_continue.cfg: violates C05 as expected")
     import copy
     c = copy.deepcopy({k: v for k, v in C.items() if k != "nontrivial"})
     c["nontrivial"] = C["nontrivial"]
